@@ -184,6 +184,19 @@ class FuncCoverage:
 MAX_CONFIRM_PER_KEY = 3
 
 
+def _raised_in_library(ex):
+    tb = ex.__traceback__
+    last = None
+    while tb is not None:
+        last = tb
+        tb = tb.tb_next
+    return last is not None and last.tb_frame.f_code.co_filename.startswith(REPO + "/")
+
+
+def _unexpected_key(mod, ex):
+    return f"{mod.ID}/unexpected-library-exception/{type(ex).__name__}"
+
+
 def _concrete_run(mod, sp, values, choices):
     ce = E.Engine("conc", values=values, choices=choices)
     with models.suspended():
@@ -195,6 +208,9 @@ def _concrete_run(mod, sp, values, choices):
         except Exception as ex:  # unexpected exception in concrete run
             obs = ce.obs
             err = f"{type(ex).__name__}: {ex}"
+            if _raised_in_library(ex):
+                ce.violations.append(E.Violation(_unexpected_key(mod, ex), err[:300], dict(values), list(ce.choice_log), True))
+                err = None
     return ce, obs, err
 
 
@@ -257,6 +273,15 @@ def run_subspace(args):
                 e.stats["degraded_paths"] += 1
                 vals = e.model_values()
                 degraded.append((vals, list(e.choice_log), str(u)))
+                raise E.PathAbort()
+            except E.EngineFault:
+                raise
+            except Exception as ex:
+                # an exception escaping from library code that the harness did not anticipate: a candidate violation
+                # (confirmed only if the concrete re-run raises it too); exceptions raised in the harness itself stay faults
+                if not _raised_in_library(ex):
+                    raise
+                e.fail(_unexpected_key(mod, ex), f"{type(ex).__name__}: {ex}"[:300])
                 raise E.PathAbort()
 
         def on_end(e):
